@@ -45,6 +45,10 @@ fn main() {
         ("identity", "record") => s_identity::record(seed, &tier),
         ("clock", "replay") => s_clock::replay(&inp, &out),
         ("clock", "record") => s_clock::record(seed, &tier, &out),
+        ("client", "replay") => s_client::replay(&inp, &out, arg(&args, "--client").unwrap_or(""), seed, &tier),
+        ("client", "record") => s_client::record(&out, arg(&args, "--client").unwrap_or(""), seed, &tier),
+        ("proc", "run") => s_proc::run_scenarios(&inp, &out, arg(&args, "--server").unwrap_or(""), arg(&args, "--workdir").unwrap_or("/tmp"), seed),
+        ("client", "real") => s_client::record_real(&out, arg(&args, "--client").unwrap_or(""), arg(&args, "--server").unwrap_or(""), arg(&args, "--workdir").unwrap_or("/tmp"), seed, &tier),
         ("selfcheck", _) => println!("{{\"rec\":\"ok\"}}"),
         (s, m) => {
             eprintln!("unknown suite/mode {} {}", s, m);
